@@ -120,7 +120,7 @@ def run(ck):
     vecs = t.vecs.get("VEC", [])
     subjects_raw = {s["fam"]: s["subjects"] for s in t.vecs.get("STAT", [])}
     ck.cov["exhaustive"] = True
-    ck.cov["rule"] = ("every string of at most maxt+TokBoost symbols over {a * ? [ ] \\ - ! e-acute} (TLC BFS, one vector per state); "
+    ck.cov["rule"] = ("every string of at most maxt+TokBoost symbols over {a * ? [ ] \\ e-acute} (TLC BFS, one vector per state); "
                       "evaluations = QuoteMeta law per string + NoMeta law per string with real HasMeta false; "
                       "non-trivial = QuoteMeta(s) differs from s")
     ck.assumptions += ["default mode (EntireString); extended operators are outside the documented metacharacter set",
